@@ -21,8 +21,16 @@ The step's observation must equal both.
 from __future__ import annotations
 
 import asyncio
+import collections
 import datetime as _dt
+import functools
+import os
+import pickle
 import re
+import shutil
+import struct
+import sys
+import tempfile
 import types
 import warnings
 from typing import Any
@@ -97,6 +105,12 @@ def canon(text: str) -> str:
 
 # ---------------------------------------------------------------- programs
 
+# Malformed tags (parser errors, raised where they stand). From N_IMMEDIATE on: unclosed
+# blocks, which the generator only puts last in a body.
+BROKEN = ["{% endfor %}", "{% assign %}", "{% if %}a{% endif %}", "{% for x %}{% endfor %}", "{% nosuchtag %}",
+          "{% cycle %}", "{% increment %}", "{% include %}", "{% capture q %}", "{% if x %}", "{% for v in x %}"]
+N_IMMEDIATE = 8
+
 TAGS = ["increment", "decrement", "cycle", "for", "assign", "capture", "macro", "call",
         "translate", "include", "extends", "block"]
 
@@ -146,6 +160,10 @@ def src_of(p: list[tuple]) -> str:
             out.append(f"{{% extends '{o[1]}' %}}")
         elif k == "B":
             out.append(f"{{% block {o[1]} %}}{src_of(o[2])}{{% endblock %}}")
+        elif k == "Ren":
+            out.append(f"{{% render '{o[1]}' %}}")
+        elif k == "Bad":
+            out.append(BROKEN[o[1]])
         elif k == "Fail":
             out.append("{{ 1 | divided_by: 0 }}")
         else:
@@ -197,6 +215,10 @@ def c_prog(p: list[tuple]) -> str:
             xs.append(f"Extends {C.cstr(o[1])}")
         elif k == "B":
             xs.append(f"Block {C.cstr(o[1])} {c_prog(o[2])}")
+        elif k == "Ren":
+            xs.append(f"RenderP {C.cstr(o[1])}")
+        elif k == "Bad":
+            xs.append(f"Broken {C.cnat(o[1])}")
         elif k == "Fail":
             xs.append("Fail")
         else:
@@ -508,14 +530,17 @@ def op_env(op: tuple, owned_env: list[int]) -> int | None:
     return None
 
 
-def run_history(ops: list[tuple]) -> list[dict[str, Any]]:
+def run_history(ops: list[tuple], trace: bool = False) -> list[dict[str, Any]]:
     loop = asyncio.new_event_loop()
     try:
         w = World(loop)
         steps = []
         for op in ops:
-            o = w.step(op)
-            steps.append({"obs": o, "snap": w.snapshot()})
+            if trace:
+                o, changed = traced_step(w, op)
+            else:
+                o, changed = w.step(op), []
+            steps.append({"obs": o, "snap": w.snapshot(), "trace": changed})
         return steps
     finally:
         loop.close()
@@ -537,10 +562,13 @@ def fresh_obs(ops: list[tuple], i: int) -> tuple:
     return replay_then([o for o in ops[:i] if not is_render_like(o)], ops[i])
 
 
-def isolated_obs(ops: list[tuple], steps: list[dict[str, Any]], i: int) -> tuple[tuple, tuple] | None:
-    """Step i with every other environment left out of the history (renumbered).
-    Returns (observation, expected observation after renumbering) or None when
-    the step does not concern a single environment."""
+def minimal_replay(ops: list[tuple], i: int) -> tuple[list[tuple], tuple, Any] | None:
+    """Step i with everything it does not depend on left out: only the clock, the
+    creation and configuration of ITS environment and the creation of ITS
+    template are replayed (other templates, other from_string calls - failed
+    ones too -, other environments and every render-like call are dropped;
+    handles renumbered).  Returns (prefix, op, rename) where rename maps the
+    step's recorded observation to the expected one."""
     owned_env = slot_envs(ops[:i])
     e = op_env(ops[i], owned_env)
     if e is None or e == -1:
@@ -548,44 +576,276 @@ def isolated_obs(ops: list[tuple], steps: list[dict[str, Any]], i: int) -> tuple
     env_map = {0: 0}
     if e != 0:
         env_map[e] = 1
-    own_map = {}
-    for idx, oe in enumerate(owned_env):
-        if oe == e:
-            own_map[idx] = len(own_map)
+    op = ops[i]
+    k = op[0]
+    keep_slot: int | None = None
+    keep_name: str | None = None
+    if k in ("r", "an"):
+        if op[1][0] == "own":
+            keep_slot = op[1][1]
+        else:
+            keep_name = op[1][2]
+    elif k == "gt":
+        keep_name = op[2]
     prefix: list[tuple] = []
-    n_env_seen = 1
+    n_env_seen, n_slot, new_slot = 1, 0, None
+    caching = [False] + [bool(o[2]) for o in ops if o[0] == "env"]
     for o in ops[:i]:
-        k = o[0]
-        if k == "env":
+        kk = o[0]
+        if kk == "env":
             if n_env_seen == e:
                 prefix.append(o)
             n_env_seen += 1
-        elif k == "tick":
+        elif kk == "tick":
             prefix.append(o)
-        elif k in ("glob", "filt", "fs", "gt") and o[1] == e:
-            prefix.append((k, env_map[e]) + tuple(o[2:]))
-    op = ops[i]
-    k = op[0]
+        elif kk in ("glob", "filt") and o[1] == e:
+            prefix.append((kk, env_map[e]) + tuple(o[2:]))
+        elif kk == "fs" or (kk == "gt" and o[1] < len(caching) and not caching[o[1]]):
+            if n_slot == keep_slot:
+                new_slot = 0
+                prefix.append((kk, env_map[e]) + tuple(o[2:]))
+            n_slot += 1
+        elif kk == "gt" and o[1] == e and o[2] == keep_name:
+            prefix.append((kk, env_map[e]) + tuple(o[2:]))
     if k in ("glob", "filt", "fs", "gt"):
-        op2 = (k, env_map[e]) + tuple(op[2:])
+        op2: tuple = (k, env_map[e]) + tuple(op[2:])
     elif k in ("r", "an"):
-        h = op[1]
-        if h[0] == "own":
-            if h[1] not in own_map:
+        if op[1][0] == "own":
+            if new_slot is None:
                 return None
-            h2: tuple = ("own", own_map[h[1]])
+            op2 = (k, ("own", 0)) + tuple(op[2:])
         else:
-            h2 = ("cached", env_map[e], h[2])
-        op2 = (k, h2) + tuple(op[2:])
+            op2 = (k, ("cached", env_map[e], op[1][2])) + tuple(op[2:])
     else:
         op2 = op
-    got = replay_then(prefix, op2)
-    exp = steps[i]["obs"]
-    if exp[0] == "own":
-        exp = ("own", len(own_map))
-    elif exp[0] == "cached":
-        exp = ("cached", env_map[e], exp[2])
-    return got, exp
+
+    def rename(obs: tuple) -> tuple:
+        if obs[0] == "own":
+            return ("own", 0)
+        if obs[0] == "cached":
+            return ("cached", env_map[e], obs[2])
+        return obs
+
+    return prefix, op2, rename
+
+
+# ---------------------------------------------------------------- a pristine process
+
+
+def _write_msg(fd: int, obj: Any) -> None:
+    data = pickle.dumps(obj)
+    os.write(fd, struct.pack("<I", len(data)))
+    off = 0
+    while off < len(data):
+        off += os.write(fd, data[off:off + 65536])
+
+
+def _read_msg(fd: int) -> Any:
+    head = b""
+    while len(head) < 4:
+        c = os.read(fd, 4 - len(head))
+        if not c:
+            return None
+        head += c
+    n = struct.unpack("<I", head)[0]
+    buf = b""
+    while len(buf) < n:
+        c = os.read(fd, n - len(buf))
+        if not c:
+            return None
+        buf += c
+    return pickle.loads(buf)
+
+
+def _handle(req: tuple) -> Any:
+    if req[0] == "replay":
+        return replay_then(req[1], req[2])
+    if req[0] == "fsrender":
+        return fs_fresh_render(*req[1:])
+    raise ValueError(req[0])
+
+
+class Pristine:
+    """A server process forked from this one when liquid2 had been imported (and
+    the clock patched) but nothing had been parsed or rendered yet.  Every
+    request is evaluated in a child forked from that server, so what it sees is
+    a process in which no template was ever parsed or rendered."""
+
+    def __init__(self) -> None:
+        r1, w1 = os.pipe()
+        r2, w2 = os.pipe()
+        sys.stdout.flush()
+        pid = os.fork()
+        if pid == 0:
+            try:
+                os.close(w1)
+                os.close(r2)
+                while True:
+                    req = _read_msg(r1)
+                    if req is None:
+                        break
+                    c = os.fork()
+                    if c == 0:
+                        try:
+                            try:
+                                res = _handle(req)
+                            except BaseException as e:  # noqa: BLE001
+                                res = ("crash", repr(e))
+                            _write_msg(w2, res)
+                        finally:
+                            os._exit(0)
+                    _, status = os.waitpid(c, 0)
+                    if status != 0:
+                        _write_msg(w2, ("crash", f"child status {status}"))
+            finally:
+                os._exit(0)
+        os.close(r1)
+        os.close(w2)
+        self.w, self.r, self.pid = w1, r2, pid
+        self.calls = 0
+
+    def call(self, req: tuple) -> Any:
+        self.calls += 1
+        _write_msg(self.w, req)
+        return _read_msg(self.r)
+
+    def close(self) -> None:
+        try:
+            os.close(self.w)
+            os.close(self.r)
+            os.waitpid(self.pid, 0)
+        except OSError:
+            pass
+
+
+# ---------------------------------------------------------------- "no trace" snapshots
+
+_CONTAINERS = (dict, list, set, collections.deque)   # OrderedDict / defaultdict are dicts
+
+
+def _fields(o: Any) -> list[tuple[str, Any]]:
+    out: list[tuple[str, Any]] = []
+    d = getattr(o, "__dict__", None)
+    if isinstance(d, dict):
+        out += list(d.items())
+    for cls in type(o).__mro__:
+        sl = cls.__dict__.get("__slots__", ())
+        if isinstance(sl, str):
+            sl = (sl,)
+        for name in sl:
+            if name in ("__dict__", "__weakref__"):
+                continue
+            try:
+                out.append((name, getattr(o, name)))
+            except AttributeError:
+                pass
+    return out
+
+
+_SKIP_FIELDS = {"cache", "calls", "fail_at", "_lock"}   # loader cache: modelled state; harness fault counters
+
+
+def fp(o: Any, depth: int, seen: set[int]) -> Any:
+    """A structural fingerprint: values of containers and of liquid2 objects
+    down to `depth`, identities below."""
+    if o is None or isinstance(o, (bool, int, float, str, bytes)):
+        return o
+    t = type(o)
+    if isinstance(o, (list, tuple, collections.deque)):
+        return (t.__name__, tuple(fp(x, depth - 1, seen) for x in o)) if depth > 0 else (t.__name__, len(o))
+    if isinstance(o, dict):
+        if depth <= 0:
+            return (t.__name__, len(o))
+        return (t.__name__, tuple((fp(k, depth - 1, seen), fp(v, depth - 1, seen)) for k, v in list(o.items())))
+    if isinstance(o, (set, frozenset)):
+        return (t.__name__, tuple(sorted(repr(fp(x, depth - 1, seen)) for x in o))) if depth > 0 else (t.__name__, len(o))
+    if isinstance(o, (type, types.FunctionType, types.BuiltinFunctionType, types.MethodType, types.ModuleType)):
+        return ("ref", getattr(o, "__qualname__", getattr(o, "__name__", "?")), id(o))
+    if isinstance(o, functools.partial):
+        return ("partial", fp(o.func, depth - 1, seen), fp(o.args, depth - 1, seen), fp(o.keywords, depth - 1, seen))
+    if hasattr(o, "cache_info") and hasattr(o, "__wrapped__"):
+        return ("lru", tuple(o.cache_info()))
+    mod = getattr(t, "__module__", "") or ""
+    if (mod.startswith("liquid2") or mod.startswith("harness")) and depth > 0 and id(o) not in seen:
+        seen.add(id(o))
+        return (t.__qualname__, id(o),
+                tuple((n, fp(v, depth - 1, seen)) for n, v in _fields(o) if n not in _SKIP_FIELDS))
+    return (t.__qualname__, id(o))
+
+
+def _h(x: Any) -> int:
+    return hash(repr(x))
+
+
+def process_state() -> dict[str, int]:
+    """Every mutable container (and every liquid2 object, lru_cache) held by a
+    liquid2 module global or by a class attribute of a liquid2 class."""
+    out: dict[str, int] = {}
+    for mname, mod in list(sys.modules.items()):
+        if not (mname == "liquid2" or mname.startswith("liquid2.")) or mod is None:
+            continue
+        for name, val in list(vars(mod).items()):
+            if name.startswith("__") or (mname == "liquid2" and name == "DEFAULT_ENVIRONMENT"):
+                continue
+            if isinstance(val, type):
+                if (getattr(val, "__module__", "") or "").startswith("liquid2"):
+                    for attr, cv in list(vars(val).items()):
+                        if attr.startswith("__") and attr not in ("__slots__",):
+                            continue
+                        if isinstance(cv, _CONTAINERS) or (hasattr(cv, "cache_info") and hasattr(cv, "__wrapped__")):
+                            out[f"cls:{val.__module__}.{val.__qualname__}.{attr}"] = _h(fp(cv, 3, set()))
+                continue
+            if isinstance(val, (types.FunctionType, types.ModuleType, types.BuiltinFunctionType)):
+                if hasattr(val, "cache_info") and hasattr(val, "__wrapped__"):
+                    out[f"mod:{mname}.{name}"] = _h(fp(val, 1, set()))
+                continue
+            tm = getattr(type(val), "__module__", "") or ""
+            if isinstance(val, _CONTAINERS) or tm.startswith("liquid2") or hasattr(val, "cache_info"):
+                out[f"mod:{mname}.{name}"] = _h(fp(val, 3, set()))
+    return out
+
+
+def world_state(w: "World") -> dict[str, int]:
+    out = process_state()
+    for i, env in enumerate(w.envs):
+        for attr, val in list(vars(env).items()):
+            out[f"env{i}.{attr}"] = _h(fp(val, 4, set()))
+        for attr, val in _fields(env.parser):
+            out[f"env{i}.parser.{attr}"] = _h(fp(val, 3, set()))
+        for tname, tag in list(env.tags.items()):
+            out[f"env{i}.tag.{tname}"] = _h(fp(tag, 3, set()))
+    for j, t in enumerate(w.owned):
+        if t is not None:
+            out[f"tmpl:own{j}"] = _h(fp(t, 14, set()))
+    for (e, name), t in w.cached_refs.items():
+        out[f"tmpl:cached{e}:{name}"] = _h(fp(t, 14, set()))
+    return out
+
+
+def allowed_change(op: tuple, path: str, w: "World", n_envs_before: int, n_owned_before: int) -> bool:
+    """Changes that ARE the operation (the session state the model has)."""
+    k = op[0]
+    if k == "env":
+        return path.startswith(f"env{n_envs_before}.")
+    if k == "glob":
+        return path == f"env{op[1]}.globals"
+    if k == "filt":
+        return path == f"env{op[1]}.filters"
+    if k in ("fs", "gt") and path == f"tmpl:own{n_owned_before}":
+        return True
+    if k == "gt" and path == f"tmpl:cached{op[1]}:{op[2]}":
+        return True     # new reference, or the shared object's global_data re-bound
+    return False
+
+
+def traced_step(w: "World", op: tuple) -> tuple[tuple, list[str]]:
+    before = world_state(w)
+    ne, no = len(w.envs), len(w.owned)
+    obs = w.step(op)
+    after = world_state(w)
+    changed = [p for p in sorted(set(before) | set(after))
+               if before.get(p) != after.get(p) and not allowed_change(op, p, w, ne, no)]
+    return obs, changed
 
 
 # ---------------------------------------------------------------- Coq terms
@@ -681,7 +941,7 @@ def gen_op(r: Any, depth: int, names: list[str]) -> tuple:
     kinds = ["T", "E", "E", "EF", "D", "D", "I", "I", "Dc", "C", "FC", "FC", "FA", "A", "A", "Cap", "M",
              "Call", "Call", "DN", "DN", "DN", "Tr", "Fail", "now", "now"]
     if names:
-        kinds += ["Inc", "Inc"]
+        kinds += ["Inc", "Inc", "Ren", "Ren"]
     if depth >= 2:
         kinds = [k for k in kinds if k not in ("Cap", "M")]
     k = r.choice(kinds)
@@ -720,6 +980,8 @@ def gen_op(r: Any, depth: int, names: list[str]) -> tuple:
         return ("Tr", r.choice(VARS + ["l"]))
     if k == "Inc":
         return ("Inc", r.choice(names + (["zz"] if r.random() < 0.1 else [])))
+    if k == "Ren":
+        return ("Ren", r.choice(names + (["zz"] if r.random() < 0.05 else [])))
     return ("Fail",) if r.random() < 0.3 else ("T", "w")
 
 
@@ -727,10 +989,37 @@ def gen_prog(r: Any, depth: int, names: list[str], lo: int = 1, hi: int = 6) -> 
     return [gen_op(r, depth, names) for _ in range(r.randint(lo, hi))]
 
 
+def break_prog(r: Any, p: list[tuple]) -> list[tuple]:
+    """Put one malformed tag somewhere in the program, at a random nesting depth."""
+    bodies = [i for i, o in enumerate(p) if o[0] in ("Cap", "M", "B")]
+    if bodies and r.random() < 0.6:
+        i = r.choice(bodies)
+        o = p[i]
+        return p[:i] + [(o[0], o[1], break_prog(r, list(o[2])))] + p[i + 1:]
+    n = r.randrange(len(BROKEN))
+    if n >= N_IMMEDIATE:
+        return p + [("Bad", n)]
+    at = r.randint(0, len(p))
+    return p[:at] + [("Bad", n)] + p[at:]
+
+
+def nested_prog(r: Any, names: list[str]) -> list[tuple]:
+    """A moderately nested, valid program: captures / macros / blocks two deep."""
+    inner = [("Cap", "l", gen_prog(r, 2, names, 1, 2)), ("I", "c")]
+    return (gen_prog(r, 1, names, 0, 2)
+            + [("M", "m", [("T", "("), ("Cap", "x", inner), ("E", "x"), ("T", ")")]),
+               ("B", "nb", [("Call", "m", ("L", "z")), ("Cap", "y", gen_prog(r, 2, names, 1, 2)), ("E", "y")]),
+               ("Call", "m", ("V", "x"))]
+            + gen_prog(r, 1, names, 0, 2))
+
+
 def gen_store(r: Any) -> list[tuple[str, list[tuple]]]:
-    """Loader contents: partials, a base with blocks, children and a grandchild."""
-    p2 = gen_prog(r, 1, [], 1, 3)
-    p1 = gen_prog(r, 1, ["p2"], 1, 4)
+    """Loader contents: partials (some with blocks, one that extends), a base
+    with blocks, children and a grandchild.  Acyclic: a template only names
+    templates defined before it."""
+    p2 = gen_prog(r, 1, [], 1, 3) + ([("B", "pb", gen_prog(r, 1, [], 1, 2))] if r.random() < 0.5 else [])
+    p1 = gen_prog(r, 1, ["p2"], 1, 4) + ([("M", "m", [("Ren", "p2"), ("E", "a")]), ("Call", "m", ("L", "t"))]
+                                         if r.random() < 0.4 else [])
     base = ([("T", "[")] + gen_prog(r, 1, ["p1"], 0, 2)
             + [("B", "b", gen_prog(r, 1, ["p2"], 1, 3))] + gen_prog(r, 1, [], 0, 2)
             + [("B", "e", gen_prog(r, 1, [], 1, 2)), ("T", "]")])
@@ -814,7 +1103,15 @@ def gen_history(r: Any, maxlen: int) -> list[tuple]:
                 beh = r.choice(["bang", "up"] if env_caching[e] else [None, "bang", "up"])
                 do(("filt", e, r.choice(["bang", "upcase", "date", "sh"]), beh))
             elif roll < 0.36:
-                o = do(("fs", e, gen_prog(r, 0, env_names[e], 2, 6), gen_globs(r)))
+                roll2 = r.random()
+                if roll2 < 0.3:
+                    prog = break_prog(r, nested_prog(r, env_names[e]) if r.random() < 0.5
+                                      else gen_prog(r, 0, env_names[e], 2, 6))
+                elif roll2 < 0.5:
+                    prog = nested_prog(r, env_names[e])
+                else:
+                    prog = gen_prog(r, 0, env_names[e], 2, 6)
+                o = do(("fs", e, prog, gen_globs(r)))
                 owned.append(e)
                 if o[0] == "own":
                     alive.append(len(owned) - 1)
